@@ -100,10 +100,12 @@ def rust_fn_at(path, line):
 
 def canon_panic(line):
     """canonical panic site of an implementation or model output line, or None"""
-    if not line.startswith("PANIC") and not line.startswith("CRASH"):
+    if not line.startswith("PANIC") and not line.startswith("CRASH") and not line.startswith("HANG"):
         return None
     if line.startswith("CRASH"):
         return "CRASH"
+    if line.startswith("HANG"):
+        return "HANG"
     rest = line[6:].strip()
     m = re.match(r"(/\S+\.rs):(\d+)\s*(.*)", rest)
     if m:
